@@ -1457,7 +1457,7 @@ def gen_unmodelled(r, n):
                   "rmsd_perm", "lincomb_coordNum", "lincomb_selfCoordNum", "distanceZ2_period",
                   "ev_forceNoPBC", "ev_period", "ev_distanceVec_coeff", "ev_rmsd_exp", "ev_dihedral_coeff", "ev_distancePairs_coeff",
                   "gspathCV", "gzpathCV", "aspathCV", "azpathCV", "gspath", "gzpath", "aspath", "azpath", "scripted_vsum", "lincomb_distanceVec",
-                  "meta_nogrid_restart", "cell_meta_nogrid_restart", "opes_frozen_restart", "abmd_restart"]
+                  "meta_nogrid_restart", "cell_meta_nogrid_restart", "opes_frozen_restart", "abmd_restart", "antipodal_distanceDir"]
     names = names + cell_names
     only = os.environ.get("C01_ONLY")          # debugging aid: restrict the sweep to kinds containing this text
     if only:
@@ -1481,6 +1481,7 @@ def gen_unmodelled(r, n):
         pre = None
         script = None
         files = None
+        exact = None
         touched = sorted(set(ids + oth2))
         fitopts = "centerToReference on\n      rotateToReference on\n      refPositions %s" % refpos_str(r, 4)
         if name == "rot_distance":
@@ -1719,6 +1720,14 @@ def gen_unmodelled(r, n):
             conf = ("colvar {\n  name v0\n  linearCombination {\n    distanceVec {\n      name a\n      componentCoeff 2.0\n      group1 {\n        atomNumbers %s\n      }\n      group2 {\n        atomNumbers %s\n      }\n    }\n"
                     "    distanceVec {\n      name b\n      componentCoeff -0.5\n      group1 {\n        atomNumbers %s\n      }\n      group2 {\n        atomNumbers %s\n      }\n    }\n  }\n}\n"
                     "harmonic {\n  colvars v0\n  centers (1.0, 0.5, -0.5)\n  forceConstant 2.0\n}" % (ids_str(ids[:2]), ids_str(oth2), ids_str(ids[2:]), ids_str(oth2[:1])))
+        elif name == "antipodal_distanceDir":
+            # a unit-vector variable with a restraint centred EXACTLY opposite (cut locus of the geodesic distance): the
+            # energy is finite there; whatever force is applied must be finite too
+            touched = sorted(ids[:2])
+            ax = r.choice([(1.0, 0.0, 0.0), (0.0, -1.0, 0.0), (0.0, 0.0, 1.0), (0.6, 0.8, 0.0)])
+            conf = ("colvar {\n  name v0\n  distanceDir {\n    group1 {\n      atomNumbers %d\n    }\n    group2 {\n      atomNumbers %d\n    }\n  }\n}\n"
+                    "harmonic {\n  colvars v0\n  centers (%r, %r, %r)\n  forceConstant 2.0\n}" % (ids[0] + 1, ids[1] + 1, -ax[0], -ax[1], -ax[2]))
+            exact = (ids[0], ids[1], ax)
         elif name == "scripted_vsum":
             # scriptedFunction through the engine's callback (vsim: vsum = sum of the component values, gradient 1)
             touched = sorted(set(ids[:3] + oth2))
@@ -1737,6 +1746,15 @@ def gen_unmodelled(r, n):
                     "  distanceZ {\n    componentCoeff -1.5\n    main {\n      atomNumbers %s\n    }\n    ref {\n      atomNumbers %s\n    }\n  }\n}\n%s\nlinear {\n  colvars v0\n  centers 0.0\n  forceConstant -0.5\n}"
                     % (ids_str(ids[:2]), ids_str(oth2), ids_str(ids[2:]), ids_str(oth2), harm))
         c = raw_case(r, full_name, na, conf, touched, cell=cell)
+        if exact:
+            a0, a1, ax = exact
+            at = list(c["atoms"])
+            p0 = tuple(V.dyadic(r, -2, 2, bits=3) for _ in range(3))
+            ln_ = r.choice([1.0, 2.5, 5.0])
+            at[a0] = (at[a0][0], at[a0][1], p0)
+            at[a1] = (at[a1][0], at[a1][1], tuple(x + ln_ * u for x, u in zip(p0, ax)))
+            c["atoms"] = at
+            c["nofd"] = True
         if rst:
             # state saved, fresh instance with changed legal options, state loaded (kernels / hills keep their own widths)
             confB = conf
@@ -2053,7 +2071,7 @@ def check(run):
     # ---- finite-difference sweep over configurations the model does not cover (a few per kind in the quick tier)
     if True:
         ur = V.rng("C01-unmodelled")
-        ucases = gen_unmodelled(ur, 207 if quick else 6000)
+        ucases = gen_unmodelled(ur, 210 if quick else 6000)
         ures = run_vsim(vsim, ucases)
         for case, res in zip(ucases, ures):
             name = case["name"]
@@ -2071,8 +2089,16 @@ def check(run):
                 run.violation("crash:" + name, "the engine simulator died on an accepted configuration (%s)" % name,
                               {"kind": "scenario", "scenario": scenario(case, "0")})
                 continue
-            s, d = fd_check(case, res)
             npre = npre_steps(case)
+            if len(res["steps"]) > npre and "err=ok" in res["steps"][npre].get("err", "") and \
+               any(math.isnan(x) or math.isinf(x) for f in res["steps"][npre]["atomf"].values() for x in f):
+                run.violation("nonfinite-force:" + name, "unmodelled configuration %s: the step reports no error and an energy of %r but hands non-finite forces to the engine: %r"
+                              % (name, res["steps"][npre].get("energy"), res["steps"][npre]["atomf"]), {"kind": "fd", "case": case, "detail": {}})
+                continue
+            if case.get("nofd"):
+                run.dist("unmodelled-ok:" + name + ":finite-forces")
+                continue
+            s, d = fd_check(case, res)
             base = res["steps"][npre]
             nz = any(abs(x) > 1e-9 for f in base["atomf"].values() for x in f)
             run.count("unmodelled:" + name, s == "ok" and nz)
